@@ -87,7 +87,7 @@ def r_cachekeys(root):
                     if leaf in ALSO_PROP: props.append(ALSO_PROP[leaf])
                     if name == "textX_parsers": props.append(("C24", "C24.c"))
                     from sa.rules import gen as _gen
-                    for p_ in _gen.props_for(rel, qualname(st)):
+                    for p_ in _gen.props_for(rel, qualname(st), root):
                         if p_ != "C16": props.append((p_, p_ + ".M"))        # the function belongs to that property's mechanism as well
                     for pr, cl in props:
                         out.append(Finding(pr, cl, rel, qualname(st), "%s[%s] = ... %s ..." % (name, ast.unparse(st.targets[0].slice)[:40], c), "the process-wide cache %s is keyed by %s but the cached value is computed from %s: a later metamodel with a different %s receives the object built for the first one" % (name, ast.unparse(key)[:50], c, leaf), witness="two metamodels in one process that differ in %s" % leaf))
